@@ -154,14 +154,14 @@ static Tables makeTables(Rng & rng, size_t S, size_t A, size_t O, Stream st) {
     t.discount = discs[rng.below(4)];
     // per action flavour: 0 mixed rows, 1 deterministic transitions, 2 fully dense, 3 an observation nobody emits
     for (size_t a = 0; a < A; ++a) {
-        int flavour = (int)rng.below(5);
+        int flavour = (int)rng.below(6);   // 5: deterministic transitions AND observations
         size_t deadObs = rng.below(O);
         for (size_t s = 0; s < S; ++s) {
-            RowKind k = flavour == 1 ? ROW_ONEHOT : flavour == 2 ? ROW_DENSE : ROW_ANY;
+            RowKind k = (flavour == 1 || flavour == 5) ? ROW_ONEHOT : flavour == 2 ? ROW_DENSE : ROW_ANY;
             if (st == ST_UGLY && rng.coin(2, 3)) t.T[s][a] = uglyRow(rng, S);
             else if (st == ST_TINY && rng.coin(1, 3)) t.T[s][a] = tinyRow(rng, S);
             else t.T[s][a] = dyadicRow(rng, S, 6, k);
-            RowKind ko = flavour == 2 ? ROW_DENSE : ROW_ANY;
+            RowKind ko = flavour == 2 ? ROW_DENSE : flavour == 5 ? ROW_ONEHOT : ROW_ANY;
             if (st == ST_UGLY && rng.coin(2, 3)) t.Ob[s][a] = uglyRow(rng, O);
             else if (st == ST_TINY && rng.coin(1, 3)) t.Ob[s][a] = tinyRow(rng, O);
             else t.Ob[s][a] = dyadicRow(rng, O, 6, ko);
@@ -251,20 +251,20 @@ static void emitBlock(Line & l, const M & m, const char * rep, const Tables & t,
     const size_t S = t.S, O = t.O;
     // predict step, both overloads
     AI::Vector partial = PO::updateBeliefPartial(m, b, a);
-    { AI::Vector p2(S); PO::updateBeliefPartial(m, b, a, &p2); if (!sameBits(partial, p2)) overloadMismatch("updateBeliefPartial", rep, "pointer_vs_value"); }
+    { AI::Vector p2 = AI::Vector::Constant(S, std::nan("")); PO::updateBeliefPartial(m, b, a, &p2); if (!sameBits(partial, p2)) overloadMismatch("updateBeliefPartial", rep, "pointer_vs_value"); }
     putVec(l, partial);
     l << PO::beliefExpectedReward(m, b, a);
     using SosaT = decltype(PO::makeSOSA(m));
     std::unique_ptr<SosaT> sosa; if (withSosa) sosa.reset(new SosaT(PO::makeSOSA(m)));
     for (size_t o = 0; o < O; ++o) {
         AI::Vector un = PO::updateBeliefUnnormalized(m, b, a, o);
-        { AI::Vector x(S); PO::updateBeliefUnnormalized(m, b, a, o, &x); if (!sameBits(un, x)) overloadMismatch("updateBeliefUnnormalized", rep, "pointer_vs_value"); }
+        { AI::Vector x = AI::Vector::Constant(S, std::nan("")); PO::updateBeliefUnnormalized(m, b, a, o, &x); if (!sameBits(un, x)) overloadMismatch("updateBeliefUnnormalized", rep, "pointer_vs_value"); }
         AI::Vector no = PO::updateBelief(m, b, a, o);
-        { AI::Vector x(S); PO::updateBelief(m, b, a, o, &x); if (!sameBits(no, x)) overloadMismatch("updateBelief", rep, "pointer_vs_value"); }
+        { AI::Vector x = AI::Vector::Constant(S, std::nan("")); PO::updateBelief(m, b, a, o, &x); if (!sameBits(no, x)) overloadMismatch("updateBelief", rep, "pointer_vs_value"); }
         AI::Vector pun = PO::updateBeliefPartialUnnormalized(m, partial, a, o);
-        { AI::Vector x(S); PO::updateBeliefPartialUnnormalized(m, partial, a, o, &x); if (!sameBits(pun, x)) overloadMismatch("updateBeliefPartialUnnormalized", rep, "pointer_vs_value"); }
+        { AI::Vector x = AI::Vector::Constant(S, std::nan("")); PO::updateBeliefPartialUnnormalized(m, partial, a, o, &x); if (!sameBits(pun, x)) overloadMismatch("updateBeliefPartialUnnormalized", rep, "pointer_vs_value"); }
         AI::Vector pno = PO::updateBeliefPartialNormalized(m, partial, a, o);
-        { AI::Vector x(S); PO::updateBeliefPartialNormalized(m, partial, a, o, &x); if (!sameBits(pno, x)) overloadMismatch("updateBeliefPartialNormalized", rep, "pointer_vs_value"); }
+        { AI::Vector x = AI::Vector::Constant(S, std::nan("")); PO::updateBeliefPartialNormalized(m, partial, a, o, &x); if (!sameBits(pno, x)) overloadMismatch("updateBeliefPartialNormalized", rep, "pointer_vs_value"); }
         putVec(l, un); putVec(l, no); putVec(l, pun); putVec(l, pno);
         if (withSosa) for (size_t s = 0; s < S; ++s) for (size_t s1 = 0; s1 < S; ++s1) l << (double)(*sosa)[a][o].coeff(s, s1);
     }
@@ -400,6 +400,21 @@ static void emitTabs(const Models & M) {
 }
 
 // does the table constructor accept these tables?  (std::invalid_argument = rejected; anything else propagates)
+template <class M>
+static bool emitAccept(const char * cls, const Tables & t);
+
+// the same question for the Eigen-matrix setters (validated with isProbability(const Matrix3D &) / (const SparseMatrix3D &))
+static void emitAcceptSetters(const Tables & t, int zeros, bool compress) {
+    bool okD = true, okS = true;
+    try { DenseM d(t.O, t.S, t.A, t.discount); d.setTransitionFunction(denseT(t)); d.setObservationFunction(denseOb(t)); }
+    catch (const std::invalid_argument &) { okD = false; }
+    try { SparseM d(t.O, t.S, t.A, t.discount); d.setTransitionFunction(toSparse3(denseT(t), zeros, compress)); d.setObservationFunction(toSparse3(denseOb(t), zeros, compress)); }
+    catch (const std::invalid_argument &) { okS = false; }
+    { Line l; l << "C05" << "accept" << "denseM" << t.S << t.A << t.O << "|"; putTables(l, t); l << "|" << okD; l.emit(); }
+    { Line l; l << "C05" << "accept" << "sparseM" << t.S << t.A << t.O << "|"; putTables(l, t); l << "|" << okS; l.emit(); }
+    std::printf("#stat denseM_setters_%s 1\n#stat sparseM_setters_%s 1\n", okD ? "accepted" : "rejected", okS ? "accepted" : "rejected");
+}
+
 template <class M>
 static bool emitAccept(const char * cls, const Tables & t) {
     bool ok = true;
@@ -566,10 +581,10 @@ static void runFixed(long idx) {
         // negative entry balanced so that the row still sums to one, and tiny successors whose total mass is inside / outside
         // the tolerance once the sparse container has dropped them
         auto base = [] { Tables t = fixedAsym(); return t; };
-        { Tables t = base(); t.T[0][0][0] += 0x1p-20; emitAccept<DenseM>("dense", t); emitAccept<SparseM>("sparse", t); }
-        { Tables t = base(); t.T[0][0][0] += 0x1p-19; emitAccept<DenseM>("dense", t); emitAccept<SparseM>("sparse", t); }
-        { Tables t = base(); t.Ob[1][0][0] = -0x1p-21; t.Ob[1][0][1] = 1.0 + 0x1p-21; emitAccept<DenseM>("dense", t); emitAccept<SparseM>("sparse", t); }
-        { Tables t = base(); t.T[1][0][0] = -0.25; t.T[1][0][1] = 0.5; emitAccept<DenseM>("dense", t); emitAccept<SparseM>("sparse", t); }
+        { Tables t = base(); t.T[0][0][0] += 0x1p-20; emitAccept<DenseM>("dense", t); emitAccept<SparseM>("sparse", t); emitAcceptSetters(t, 2, false); }
+        { Tables t = base(); t.T[0][0][0] += 0x1p-19; emitAccept<DenseM>("dense", t); emitAccept<SparseM>("sparse", t); emitAcceptSetters(t, 2, false); }
+        { Tables t = base(); t.Ob[1][0][0] = -0x1p-21; t.Ob[1][0][1] = 1.0 + 0x1p-21; emitAccept<DenseM>("dense", t); emitAccept<SparseM>("sparse", t); emitAcceptSetters(t, 2, false); }
+        { Tables t = base(); t.T[1][0][0] = -0.25; t.T[1][0][1] = 0.5; emitAccept<DenseM>("dense", t); emitAccept<SparseM>("sparse", t); emitAcceptSetters(t, 2, false); }
         for (int cnt : {2, 3, 7}) {
             Tables t = defaultTables(8, 1, 2);
             for (int j = 1; j <= cnt; ++j) { t.T[0][0][j] = 0x1p-21; t.T[0][0][0] -= 0x1p-21; }
@@ -633,6 +648,7 @@ static void verif_case_inner(Rng & rng, long idx, const std::string & tier) {
     if (st == ST_NEAR) {
         perturb(rng, tt);
         const bool okD = emitAccept<DenseM>("dense", tt), okS = emitAccept<SparseM>("sparse", tt);
+        emitAcceptSetters(tt, (int)rng.below(3), rng.coin());
         std::printf("#stat stream_near 1\n");
         if (!(okD && okS)) return;
     }
